@@ -102,3 +102,73 @@ Definition two_phase_collect (fuel : nat) (S : schema) (D : document) (vars : li
     | None => None
     end
   end.
+
+(* ---- the static structure of a prepared plan (PlanQuery): per level, whether it is dynamic, and
+        for a static level the merged fields with their occurrences and, for fields of object type,
+        the eagerly planned sub-level (abstract fields are planned lazily at execute time) ---- *)
+Inductive ptree := PT (dynamic : bool) (fields : list (name * list N * option ptree)).
+
+Fixpoint plan_all (fuel : nat) (S : schema) (D : document) (obj : name) (sets : list (list selection))
+         (visited : list name) (g : groups) (saw : bool) : option (groups * list name * bool) :=
+  match sets with
+  | [] => Some (g, visited, saw)
+  | s :: r =>
+    match plan_collect fuel S D obj s visited g saw with
+    | Some (g', v', saw') => plan_all fuel S D obj r v' g' saw'
+    | None => None
+    end
+  end.
+
+Definition is_object_type (S : schema) (n : name) : bool :=
+  match lookup_type S n with Some (TObject _ _) => true | _ => false end.
+
+Fixpoint plan_tree (fuel : nat) (S : schema) (D : document) (obj : name) (sets : list (list selection))
+  : option ptree :=
+  match fuel with
+  | O => None
+  | S fuel' =>
+    match plan_all fuel' S D obj sets [] [] false with
+    | None => None
+    | Some (_, _, true) => Some (PT true [])
+    | Some (g, _, false) =>
+      match omap (fun ko : name * list occ =>
+                    let '(k, occs) := ko in
+                    let fname := match occs with o :: _ => oc_name o | [] => "" end in
+                    let sub :=
+                        match find_field fname (object_fields S obj) with
+                        | Some fd =>
+                          if is_object_type S (named_of (f_type fd))
+                          then match plan_tree fuel' S D (named_of (f_type fd)) (map oc_sub occs) with
+                               | Some t => Some (Some t)
+                               | None => None
+                               end
+                          else Some None
+                        | None => Some None
+                        end in
+                    match sub with
+                    | Some st => Some (k, map oc_id occs, st)
+                    | None => None
+                    end) g with
+      | Some fs => Some (PT false fs)
+      | None => None
+      end
+    end
+  end.
+
+Fixpoint ptree_eqb (a b : ptree) {struct a} : bool :=
+  match a, b with
+  | PT d fs, PT d' fs' =>
+    Bool.eqb d d' &&
+    (fix go (l l' : list (name * list N * option ptree)) : bool :=
+       match l, l' with
+       | [], [] => true
+       | (k, ns, st) :: r, (k', ns', st') :: r' =>
+         String.eqb k k' && nlist_eqb ns ns' &&
+         match st, st' with
+         | None, None => true
+         | Some x, Some y => ptree_eqb x y
+         | _, _ => false
+         end && go r r'
+       | _, _ => false
+       end) fs fs'
+  end.
